@@ -123,8 +123,10 @@ func (c *Channel) Close() error {
 
 	// Drain any pending requests.
 	go func() { c.wg.Wait(); close(c.rsp) }()
-	for range c.rsp {
-		// discard
+	for rsp := range c.rsp {
+		if rsp.err == nil {
+			rsp.rsp.Body.Close() // discard
+		}
 	}
 	return nil
 }
